@@ -676,3 +676,15 @@ RUNNERS["reinforce"] = run_reinforce_collect
 RUNNERS["a2c"] = run_a2c_collect
 EXTRA_C01.append(("reinforce", "reinforce.sample_trajectories"))
 EXTRA_C01.append(("a2c", "a2c.collect_trajectories"))
+
+
+def run_active_mt(ctx, total, interval, n_tasks=2):
+    from rl_blox.algorithm import active_mt as mod
+    from rl_blox.blox.multitask import RoundRobinSelector
+    w = W.World()
+    ts = TaskSetStub(w, n_tasks)
+    buf = MTBufferStub(w)
+    sel = RoundRobinSelector(np.arange(n_tasks))
+    with overlay(mod, tqdm=lambda *a, **k: W.Bar()):
+        res = mod.train_active_mt(ts, train_st_contract(w), buf, 1.0, task_selector=sel, total_timesteps=total, scheduling_interval=interval, learning_starts=0, seed=0, logger=None, progress_bar=False)
+    return w, ts, buf, res
